@@ -47,6 +47,14 @@ pub struct Ctx {
 }
 
 impl Ctx {
+    /// Tier that decides the size of ENUMERATED sweeps: the dbgchk worker of a value property in the thorough tier
+    /// (MLV_SWEEP_TIER=quick, set by the supervisor) sweeps the quick residue class, the release worker everything.
+    pub fn sweep_tier(&self) -> Tier {
+        match std::env::var("MLV_SWEEP_TIER").as_deref() {
+            Ok("quick") => Tier::Quick,
+            _ => self.tier,
+        }
+    }
     pub fn cases(&self, quick: u64, thorough: u64) -> u64 {
         let n = self.tier.pick(quick, thorough) as f64 * self.scale;
         (n as u64).max(1)
